@@ -11,7 +11,7 @@ def profile(tier):
     return Profile(vrl='mixed', max_frames=2, max_channels=5, max_rows=40, max_width=24,
                    layouts=('C', 'F', 'strided', 'neg', 'ro', 'view'), specials=True, casts=True, chunks=True,
                    sources=('inline', 'dict', 'struct', 'hdf5'),
-                   units=False)
+                   units=False, preludes=True)
 
 
 def nontrivial(spec):
